@@ -506,7 +506,7 @@ def correspond(ctx):
     idx.append(n)
   bad = ctx.run_cases('bundles', ['Grist.Lib.PyPrelude', 'Grist.Lib.PyMonad', 'Grist.Model.RowIds', 'Grist.Model.TempIds'],
                       'fun c => bundle_result_eqb (run_bundle (fst (fst (fst c))) (snd (fst (fst c))) (snd (fst c))) (snd c)',
-                      coq, shard=700)
+                      coq, shard=240)
   for i in bad[:5]:
     sch, doc, acts = cases[idx[i]]
     ctx.broken('correspondence:Model/TempIds.run_bundle differs from the engine',
@@ -760,11 +760,16 @@ def validate_translation(ctx):
     'ref': "fun c => let '(sm, vals, out) := c in %s (ref_prepare_new_values sm 0 1 vals) out" % cells_eqb,
     'reflist': "fun c => let '(sm, vals, out) := c in %s (reflist_prepare_new_values sm 0 1 vals) out" % cells_eqb,
   }
-  counts = {}
+  # one list of boolean terms (a single coqc run): each case is `chk_<kind> <case tuple>`
+  defs = '\n'.join('Definition chk_%s := %s.' % (k, checks[k]) for k in sorted(checks))
+  flat, origin, counts = [], [], {}
   for kind in sorted(cases):
-    bad = ctx.run_cases('tr_' + kind, imports, checks[kind], cases[kind], shard=800)
     counts[kind] = len(cases[kind])
     ctx.bump('translator-validation:' + kind, len(cases[kind]))
-    for i in bad[:3]:
-      ctx.broken('correspondence:translated %s differs from the running code' % kind, cases[kind][i][:600])
+    for c in cases[kind]:
+      flat.append('(chk_%s %s)' % (kind, c))
+      origin.append((kind, c))
+  bad = ctx.run_cases('translator', imports, 'fun b : bool => b', flat, shard=400, extra_defs=defs)
+  for i in bad[:5]:
+    ctx.broken('correspondence:translated %s differs from the running code' % origin[i][0], origin[i][1][:600])
   ctx.extra['translator_validation'] = counts
